@@ -10,7 +10,14 @@ P = {
                  "C03_matcher_sees_route_keys", "C03_lookup_answers_as_documented", "C03_lookup_answers_as_documented_now", "C03_lookup_no_panic", "C03_lookup_selected", "C03_selected_only_if_documented", "C03_history_independent",
                  "C03_F1_pinned_refuted", "C03_F3_pinned_refuted", "C03_F4_pinned_refuted",
                  "C03_F2_pinned_refuted", "C03_F5_pinned_refuted", "C03_F5_pinned_panic_refuted", "C03_F6_pinned_refuted",
-                 "C03_F7_pinned_refuted", "C03_F8_pinned_refuted", "C03_nonvacuous"],
+                 "C03_F7_pinned_refuted", "C03_F8_pinned_refuted", "C03_nonvacuous",
+                 # every tree the repository can reach (Tree.Add / Tree.Delete), after any history of rule-set operations
+                 "C03_reach_content", "C03_reach_matcher_sees_route_keys", "C03_reach_lookup_answers_as_documented",
+                 "C03_reach_lookup_answers_as_documented_now", "C03_reach_lookup_no_panic", "C03_reach_lookup_selected",
+                 "C03_reach_unnamed_not_exposed", "C03_reach_selected_only_if_documented",
+                 "C03_history_index_is_reachable", "C03_history_matcher_sees_route_keys", "C03_history_lookup_no_panic",
+                 "C03_history_lookup_answers_as_documented_now", "C03_history_selected_only_if_documented",
+                 "C03_history_nonvacuous"],
     "streams": [{
         "name": "routes", "pkg": "./internal/rules", "test": "TestVerifC03",
         "overlay": {"internal/rules/zz_verif_c03_test.go": "c03/c03_test.go"},
@@ -29,14 +36,18 @@ P = {
             "wildcards; allow_encoded_slashes ''/off/on/no_decode). 50% of the rule sets the validator accepts go as a JSON document through the real "
             "config.ParseRules (decoder + validator) and Rule.DeepCopy, the others as config structs; all through the real ruleFactory.CreateRule and "
             "the real repository; 40% of the multi-rule cases as TWO AddRuleSet calls from two sources (clone of a non-empty tree, one-source-per-node "
-            "constraint, second set possibly refused). Then 3-8 requests (6% of the cases: one rule probed with every method), ALL served one after the other by the "
+            "constraint, second set possibly refused); 35% of the cases get a HISTORY before the requests: the rule sets are added, then 1-3 further "
+            "operations follow on the real repository - UpdateRuleSet (per loaded rule: unchanged / a changed version with the same id / gone; "
+            "sometimes a new rule), DeleteRuleSet, AddRuleSet of a further rule set - and in 45% of these a pair of sibling expressions inside "
+            "one literal segment below wildcards (<pre>b / <pre>c in two rule sets, one deleted again: prefix split, then deleteChild merges a "
+            "node that holds values and key names), each operation on a clone of the tree, all-or-nothing, accepted/refused recorded. Then 3-8 requests (6% of the cases: one rule probed with every method), ALL served one after the other by the "
             "SAME instance of the rule set (same matcher objects) and each additionally by an instance built anew (history independence); 45% of the "
             "cases get a run of 2-5 requests carrying the same captured TEXT once from a view with RawPath (still encoded, e.g. %41) and once from a "
             "view without (already decoded: the client sent %2541), in both orders and interleaved. Request contexts: request line / X-Forwarded-* / "
             "Envoy CheckRequest (real entry points, no caching by the driver) and `direct` (heimdall.Request from url.Parse, the only way to a view "
             "without RawPath): instantiations of the expressions and "
             "near misses; segments re-encoded with %XX in either hex case, %2F, %2f, '+', %2B, ';', raw and encoded UTF-8, invalid escapes (Envoy), "
-            "the former place-holder text. Corpus first: the witness of every (repaired) finding and the documentation's examples. Observed per "
+            "the former place-holder text. Corpus first: three histories (the split + deleteChild-merge example of C03_history_nonvacuous, a merge of a node holding values and key names, an update to other wildcard names), the witness of every (repaired) finding and the documentation's examples. Observed per "
             "request: every matcher call (route, keys, values, answer) through a pass-through recorder between the real tree and the real route "
             "matcher, the selected rule, the captures AS THE PIPELINE SEES THEM (snapshot by the stub authenticator inside the real Execute), the "
             "encoded-slash rejection; engine answers from gobwas/glob and regexp called directly. Non-trivial = a request with >= 2 matcher calls, "
@@ -49,8 +60,12 @@ P = {
                 "matchers); a pair missing from the table fails the case; `exact` is modelled",
                 "net/url.PathUnescape is modelled (pct_decode) and compared through the captures of every run; request parsing (http.ReadRequest, "
                 "requestcontext, Envoy CheckRequest -> URL view) is observed, not modelled: the view (method, scheme, host, Path, RawPath) is case data",
-                "radix tree: Add / findNode / Find are transcribed (no Delete / Update, no priority sorting: static index bytes are unique); two "
-                "AddRuleSet calls (Clone, source constraint) are modelled executably but the theorems are about one AddRuleSet",
+                "radix tree: findNode / Find are C03's transcription with call trace and panics (C03/Model.v); Add and Delete are the shared "
+                "transcriptions Radix/Tree.v and C06/TreeDel.v (owners C02/C06, proved there to keep the invariant wfd and to refine the pattern-map "
+                "machine), read as a C03 tree by conv; C03's own transcription of Add (load / load2) is kept for the Add-only theorems and is run next "
+                "to the shared one on every case without a history (models_agree); no priority sorting (static index bytes are unique); Clone is "
+                "the identity on immutable model trees; which rules an UpdateRuleSet replaces is computed as the code does from SameAs / EqualTo, the "
+                "equality classes of the rule hashes being case data read off the created rules",
                 "the rule-set decoder, validator and DeepCopy are exercised (half of the valid rule sets) but not modelled: the model starts from the rule definition",
                 "Go map iteration order is irrelevant: captures are compared as sorted association lists"],
     "level_text": "Proof (kernel-checked, no axioms). (1) Conditions: for all method lists, host lists, path_params lists, engines, requests, "
@@ -58,18 +73,24 @@ P = {
                   "path_params on the decoded value of the named wildcard, and never panics (C03_route_matches_iff, C03_method_list_semantics, "
                   "C03_hosts_any). (2) Decoding: the capture decoding equals the specified percent-decoding per encoded-slash setting for all three "
                   "variants of the decoder, rejection under `off` exactly on encoded slashes (C03_decode_per_setting, C03_captures_exact). "
-                  "(3) Lookup tree, for ALL rule sets loaded by one AddRuleSet (any number of rules/routes, any insertion order, prefix splitting and "
-                  "escapes included) and all requests: every matcher call is made for a route whose expression matches the request path as documented, "
+                  "(3) Lookup tree, for EVERY tree the repository can reach - any sequence of Tree.Add and Tree.Delete (prefix splits, deleteChild "
+                  "merges, any values constraint), hence after ANY history of AddRuleSet / UpdateRuleSet / DeleteRuleSet (C03_history_index_is_reachable; "
+                  "C03_reach_* and C03_history_* restate every theorem of this paragraph for such trees; the original names are the instance 'one "
+                  "AddRuleSet on the empty tree', any number of rules/routes, any insertion order, prefix splitting and escapes included) - and all requests: every matcher call is made for a route whose expression matches the request path as documented, "
                   "with the wildcard names that route declares and the segments its wildcards match, free wildcard included "
                   "(C03_matcher_sees_route_keys: insertion invariant over addNode/splitCommonPrefix, soundness of findNode, and both directions between "
                   "the byte-level position of an expression and the documentation's segment-level matching, the converse for the valid expressions Add "
-                  "accepts); hence every call answers as documented (C03_lookup_answers_as_documented, _now without any guard), the lookup never panics "
+                  "accepts; on reachable trees the insertion invariant is replaced by the content invariant of the SHARED tree proofs - C03_reach_content: "
+                  "a reachable tree satisfies wfd and its abstraction, the content of the pattern-map machine, holds per pattern only routes whose own "
+                  "expression parses to that pattern with the node's key names, by Radix/TreeAddProofs add_node_spec and C06/TreeDelProofs del_node_spec - "
+                  "plus the proof that the shared parser and C03's byte-level reading of an expression are the same function); hence every call answers as documented (C03_lookup_answers_as_documented, _now without any guard), the lookup never panics "
                   "(C03_lookup_no_panic), and END TO END (C03_selected_only_if_documented, C03_lookup_selected, C03_unnamed_not_exposed): a rule is "
                   "selected only through a route that was asked, said yes and whose documented conditions hold; the request is refused exactly for an "
                   "encoded slash under off; otherwise the values exposed are exactly the decoded named segments, unnamed wildcards not exposed. All eight "
                   "findings C03-F1..F8 were repaired by fix: commits; the model is parametric in each repair, the main theorems hold for every variant "
                   "with guards that are false by definition for the repaired one, and each pinned behaviour is kept as a _pinned_refuted witness. The "
-                  "model is tied to the code by running both on ~1200 (quick) / 30000 (thorough) generated rule sets x 3-8 requests per run; the verdict "
+                  "model is tied to the code by running both on ~1200 (quick) / 30000 (thorough) generated rule sets x 3-8 requests per run, a third of them "
+                  "after a history with updates and deletes on the real repository (model: hrun, the shared tree driven as repository_impl.go drives it); the verdict "
                   "is the specification's predicate on the implementation's observation (answers of all matcher calls, selected rule, captures as the "
                   "pipeline sees them, rejection) plus correspondence of the model on accepted/rejected, selected rule, captures, rejection and the "
                   "(route, answer) projection of the call trace. History independence: every request of a case is served by the same matcher instances "
@@ -81,7 +102,7 @@ P = {
                   "Envoy). Which of several matching routes is consulted first / backtracking is C02's subject: the C03 theorems speak about the calls "
                   "that are made and the rule that is selected (both directions between stored position and documented expression are proved), not "
                   "about completeness of the search. Correspondence compares accepted/rejected, selected rule, captures, rejection and the (route, answer) "
-                  "projection of the call trace; keys/values are not compared (they are the subject of the theorems). A request view WITHOUT RawPath is produced by no entry point (only by callers that build heimdall.Request themselves); for such views the check requires no panic, history independence and correspondence with the model, but not the decoding clauses (their Path is already decoded; the code decodes captures once more there - noted, not recorded as a finding). Tree Delete and priority sorting are not modelled (lookups on trees built by Add). Decoder spec reading: a kept "
+                  "projection of the call trace; keys/values are not compared (they are the subject of the theorems). A request view WITHOUT RawPath is produced by no entry point (only by callers that build heimdall.Request themselves); for such views the check requires no panic, history independence and correspondence with the model, but not the decoding clauses (their Path is already decoded; the code decodes captures once more there - noted, not recorded as a finding). Tree Delete is the shared transcription C06/TreeDel.v (not C03's): the C03_reach_* / C03_history_* theorems hold for every tree reachable by Add and Delete and rest on Radix/TreeAddProofs, C06/TreeDelProofs, C06/TreeRefine (entry-by-entry characterisation of Add / Delete on the abstraction) and C02/Reach (reachable => wfd). They say which route a call or a selection belongs to among ALL routes ever created in the case (every version of every rule); that a route deleted or replaced by an update is no longer in the index ('history = fresh load of the current sets') is C06's / C02's theorem, not restated here. C03's lookup function (with call trace and panics) is not proved equal to Radix's find: the theorems about calls use C03's own soundness lemma find_node_good, which needs no invariant, on the converted tree. Priority sorting is not modelled. Decoder spec reading: a kept "
                   "encoded slash is written in the canonical spelling %2F (RFC 3986 2.1), which is what the repair of F7 does.",
     "assumptions": ["the driver is in-package (internal/rules) and wraps rule.Route values; a rename of ruleImpl/routeImpl fields or of the "
                     "Route interface breaks the driver, not the property",
